@@ -112,7 +112,7 @@ class Evaluator:
                 return self.globals[e.id]
             if e.id == "Mode":
                 return MODE
-            if e.id in ("Tensor", "Real", "NotImplemented", "ValueError", "TypeError", "NotImplementedError"):
+            if e.id in ("Tensor", "Real", "NotImplemented", "ValueError", "TypeError", "NotImplementedError", "object"):
                 return NOT_IMPLEMENTED if e.id == "NotImplemented" else Obj("Class", name=e.id)
             raise Uninterpretable(f"name {e.id}")
         if isinstance(e, ast.Attribute):
@@ -127,6 +127,10 @@ class Evaluator:
                 return ("dictmethod", v, e.attr)
             if isinstance(v, list) and e.attr == "append":
                 return ("listappend", v)
+            if isinstance(v, (set, frozenset)) and e.attr in ("update", "add", "intersection", "union", "difference", "pop", "issubset", "copy"):
+                return ("setmethod", v, e.attr)
+            if isinstance(v, Obj) and v.tag == "Class" and v.attrs.get("name") == "object" and e.attr == "__setattr__":
+                return ("setattr",)
             raise Uninterpretable(f"attribute {ast.unparse(e)}")
         if isinstance(e, ast.Subscript):
             v = self.ev(e.value, env)
@@ -237,7 +241,7 @@ class Evaluator:
             return v
         if v is None:
             return False
-        if isinstance(v, (str, tuple, list, int)):
+        if isinstance(v, (str, tuple, list, int, set, frozenset, dict)):
             return bool(v)
         raise Uninterpretable(f"truth of {v!r}")
 
@@ -253,6 +257,8 @@ class Evaluator:
             if len(l) != len(r):
                 return False
             return all(self.equal(a, b) for a, b in zip(l, r))
+        if isinstance(l, Obj) and isinstance(r, Obj) and l.tag == r.tag and l.attrs.get("__structural__"):
+            return all(self.equal(l.attrs[k], r.attrs.get(k)) for k in l.attrs if not callable(l.attrs[k]))
         if isinstance(l, Obj) or isinstance(r, Obj):
             return l is r
         return l == r
@@ -278,6 +284,8 @@ class Evaluator:
     def iterate(self, v, node):
         if isinstance(v, (tuple, list, range)):
             return list(v)
+        if isinstance(v, (set, frozenset)):
+            return sorted(v, key=repr)
         if isinstance(v, dict):
             return list(v.keys())
         raise Uninterpretable(f"iteration over {ast.unparse(node) if isinstance(node, ast.AST) else node}")
@@ -292,7 +300,19 @@ class Evaluator:
                 raise Uninterpretable(f"item assignment on {ast.unparse(target.value)}")
             d[k] = value
         elif isinstance(target, (ast.Tuple, ast.List)):
-            if not isinstance(value, (tuple, list)) or len(value) != len(target.elts):
+            if not isinstance(value, (tuple, list)):
+                raise Uninterpretable("tuple unpacking")
+            stars = [i for i, t in enumerate(target.elts) if isinstance(t, ast.Starred)]
+            if stars:
+                i = stars[0]
+                after = len(target.elts) - i - 1
+                if len(value) < len(target.elts) - 1:
+                    raise Raised("ValueError")
+                parts = list(value[:i]) + [list(value[i : len(value) - after])] + list(value[len(value) - after :])
+                for t, v in zip(target.elts, parts):
+                    self.bind(t.value if isinstance(t, ast.Starred) else t, v, env)
+                return
+            if len(value) != len(target.elts):
                 raise Uninterpretable("tuple unpacking")
             for t, v in zip(target.elts, value):
                 self.bind(t, v, env)
@@ -337,8 +357,8 @@ class Evaluator:
                 return tuple(self.iterate(args[0], e)) if args else ()
             if name == "list":
                 return list(self.iterate(args[0], e)) if args else []
-            if name == "set":
-                return tuple(dict.fromkeys(self.iterate(args[0], e))) if args else ()
+            if name in ("set", "frozenset"):
+                return set(self.iterate(args[0], e)) if args else set()
             if name == "iter":
                 return Obj("iterator", items=list(self.iterate(args[0], e)))
             if name == "next":
@@ -405,6 +425,38 @@ class Evaluator:
             if m == "update":
                 d.update(*args, **kwargs)
                 return None
+        if isinstance(f, tuple) and f[0] == "setmethod":
+            st, m = f[1], f[2]
+            if m == "update":
+                for a in args:
+                    st.update(self.iterate(a, e))
+                return None
+            if m == "add":
+                st.add(args[0])
+                return None
+            if m == "pop":
+                if not st:
+                    raise Raised("KeyError")
+                x = sorted(st, key=repr)[0]
+                st.discard(x)
+                return x
+            if m == "copy":
+                return set(st)
+            other = set(self.iterate(args[0], e)) if args else set()
+            if m == "intersection":
+                return set(st) & other
+            if m == "union":
+                return set(st) | other
+            if m == "difference":
+                return set(st) - other
+            if m == "issubset":
+                return set(st) <= other
+        if isinstance(f, tuple) and f[0] == "setattr":
+            obj, name_, val = args
+            if isinstance(obj, Obj):
+                obj.attrs[name_] = val
+                return None
+            raise Uninterpretable("object.__setattr__ on a non-object")
         if isinstance(f, tuple) and f[0] == "listappend":
             f[1].append(args[0])
             return None
@@ -448,6 +500,18 @@ class Evaluator:
                 v = self.ev(s.value, env)
                 for t in s.targets:
                     self.bind(t, v, env)
+            elif isinstance(s, ast.AnnAssign):
+                if s.value is not None:
+                    self.bind(s.target, self.ev(s.value, env), env)
+            elif isinstance(s, ast.AugAssign) and isinstance(s.target, ast.Name):
+                cur = self.ev(s.target, env)
+                inc = self.ev(s.value, env)
+                if isinstance(s.op, ast.Add):
+                    env[s.target.id] = cur + inc
+                elif isinstance(s.op, ast.Mult):
+                    env[s.target.id] = cur * inc
+                else:
+                    raise Uninterpretable("augmented assignment")
             elif isinstance(s, ast.FunctionDef):
                 env[s.name] = s
             elif isinstance(s, (ast.Import, ast.ImportFrom)):
